@@ -53,6 +53,20 @@ func (c15) Gen(r *sim.Rand, tier string, run uint64) *sim.Scenario {
 		at := r.Intn(len(ops) + 1)
 		ops = append(ops[:at], append([]sim.Op{{K: "finalize"}}, ops[at:]...)...)
 	}
+	for i := 0; i < r.Intn(3); i++ {
+		// a measuring pass: a clone without a target is taken, fed an instruction, and dropped
+		at := r.Intn(len(ops) + 1)
+		ops = append(ops[:at], append([]sim.Op{{K: "trialclone"}}, ops[at:]...)...)
+	}
+	if r.Chance(1, 300) {
+		// a program longer than 64 KiB (large tables)
+		for i := 0; i < 3; i++ {
+			d := sim.Op{K: "data", B: r.Bytes(sim.PickInt(r, 30000, 32768, 21850))}
+			size += len(d.B)
+			at := r.Intn(len(ops) + 1)
+			ops = append(ops[:at], append([]sim.Op{d}, ops[at:]...)...)
+		}
+	}
 	nl := r.Range(1, 5)
 	for i := 0; i < nl; i++ {
 		at := r.Intn(len(ops) + 1)
@@ -70,7 +84,7 @@ func (c15) Gen(r *sim.Rand, tier string, run uint64) *sim.Scenario {
 		l := sim.Op{K: "listing", N: []int64{int64(r.Intn(2)), int64(plan), int64(k)}}
 		ops = append(ops[:at], append([]sim.Op{l}, ops[at:]...)...)
 	}
-	if r.Chance(1, 12) && size > 2 {
+	if r.Chance(1, 12) && size > 2 && size < 0xF000 {
 		// a base just below the end of a bank: addresses run across $xx:FFFF
 		base := int64(r.Intn(255))<<16 | (0x10000 - int64(r.Range(1, size-1)))
 		ops = append([]sim.Op{{K: "setbase", N: []int64{base}}}, ops...)
@@ -89,7 +103,7 @@ func (c15) Gen(r *sim.Rand, tier string, run uint64) *sim.Scenario {
 		sc.Cfg["cap"] = int64(r.Intn(size + 1))
 	} else if r.Chance(1, 5) {
 		// a block of the history goes through Clone/Append (with a discarded sibling clone)
-		ops = withCloneSegment(r, ops, map[string]bool{"finalize": true, "setbase": true, "listing": true})
+		ops = withCloneSegment(r, ops, map[string]bool{"finalize": true, "setbase": true, "listing": true, "trialclone": true})
 	}
 	sc.Ops = ops
 	return sc
@@ -375,8 +389,8 @@ func (c15) Exec(sc *sim.Scenario, env *sim.Env) *sim.Violation {
 	if capacity < 0 {
 		capacity = 0
 	}
-	if capacity > 1<<16 {
-		capacity = 1 << 16
+	if capacity > 1<<18 {
+		capacity = 1 << 18
 	}
 	target, guard := mkTarget(capacity, sc.Seed&2 == 2)
 	e := asm.NewEmitter(target, true)
@@ -444,6 +458,16 @@ func (c15) Exec(sc *sim.Scenario, env *sim.Env) *sim.Violation {
 			continue
 		}
 		switch op.K {
+		case "trialclone":
+			if !seg.active() {
+				sim.RecoverLib(func() {
+					if c := e.Clone(nil); c != nil {
+						c.NOP()
+					}
+				})
+				st.Probe("trial_clone_dropped")
+			}
+			continue
 		case "finalize":
 			var err error
 			p, pv := sim.RecoverLib(func() { err = e.Finalize() })
